@@ -424,6 +424,7 @@ EGLPNUM_TYPENAME_QSLIB_INTERFACE int EGLPNUM_TYPENAME_QSopt_pivotin_row (
 {
 	int basismod = 0;
 	int rval = 0;
+	int i;
 
 	rval = check_qsdata_pointer (p);
 	CHECKRVALG (rval, CLEANUP);
@@ -431,6 +432,23 @@ EGLPNUM_TYPENAME_QSLIB_INTERFACE int EGLPNUM_TYPENAME_QSopt_pivotin_row (
 	if (p->pricing == 0)
 	{
 		ILL_ERROR (rval, "pricing info not available in EGLPNUM_TYPENAME_QSopt_pivotin_row\n");
+	}
+
+	if (p->lp->basisid == -1 || p->lp->vstat == 0 ||
+			p->lp->ncols != p->qslp->ncols || p->lp->nrows != p->qslp->nrows)
+	{
+		QSlog("no current basis for the problem in EGLPNUM_TYPENAME_QSopt_pivotin_row");
+		rval = 1;
+		goto CLEANUP;
+	}
+	for (i = 0; i < rcnt; i++)
+	{
+		if (rlist[i] < 0 || rlist[i] >= p->qslp->nrows)
+		{
+			QSlog("entry %d in rlist out of range", i);
+			rval = 1;
+			goto CLEANUP;
+		}
 	}
 
 	rval = EGLPNUM_TYPENAME_ILLsimplex_pivotin (p->lp, p->pricing, rcnt, rlist,
@@ -452,6 +470,7 @@ EGLPNUM_TYPENAME_QSLIB_INTERFACE int EGLPNUM_TYPENAME_QSopt_pivotin_col (
 {
 	int basismod = 0;
 	int rval = 0;
+	int i;
 
 	rval = check_qsdata_pointer (p);
 	CHECKRVALG (rval, CLEANUP);
@@ -459,6 +478,23 @@ EGLPNUM_TYPENAME_QSLIB_INTERFACE int EGLPNUM_TYPENAME_QSopt_pivotin_col (
 	if (p->pricing == 0)
 	{
 		ILL_ERROR (rval, "pricing info not available in QSopt_pivotin\n");
+	}
+
+	if (p->lp->basisid == -1 || p->lp->vstat == 0 ||
+			p->lp->ncols != p->qslp->ncols || p->lp->nrows != p->qslp->nrows)
+	{
+		QSlog("no current basis for the problem in EGLPNUM_TYPENAME_QSopt_pivotin_col");
+		rval = 1;
+		goto CLEANUP;
+	}
+	for (i = 0; i < ccnt; i++)
+	{
+		if (clist[i] < 0 || clist[i] >= p->qslp->nstruct)
+		{
+			QSlog("entry %d in clist out of range", i);
+			rval = 1;
+			goto CLEANUP;
+		}
 	}
 
 	rval = EGLPNUM_TYPENAME_ILLsimplex_pivotin (p->lp, p->pricing, ccnt, clist,
